@@ -475,10 +475,12 @@ impl<'source> CommentBlocks<'source> {
             .into()
     }
 
+    /// The column of a block comment's opener. Continuation lines are measured against it
+    /// whether or not code precedes the opener on its line: the printer places them relative
+    /// to the column where it prints the opener, so the comment moves rigidly with it.
     fn opening_indentation(&self, start: usize) -> usize {
         let line_start = self.source[..start].rfind('\n').map_or(0, |newline| newline + 1);
-        let prefix = &self.source[line_start..start];
-        if prefix.chars().all(LineSeparation::is_horizontal_whitespace) { prefix.len() } else { 0 }
+        self.source[line_start..start].chars().count()
     }
 
     fn indentation(line: &str) -> usize {
